@@ -154,8 +154,8 @@ def sane_number(rng, draft4):
         s["multipleOf"] = rng.choice([1, 2, 3, 5])
     if rng.random() < 0.12:
         s["enum"] = sorted({rng.randint(lo, hi) for _ in range(rng.randint(1, 3))})
-    if rng.random() < 0.1:
-        s[rng.choice(["example", "default"])] = rng.randint(lo, hi)
+    if rng.random() < 0.1 and "multipleOf" not in s and "enum" not in s and not any(k.startswith("exclusive") for k in s):
+        s[rng.choice(["example", "default"])] = rng.randint(lo, hi)   # a value the schema accepts
     return s
 
 
@@ -174,8 +174,8 @@ def sane_string(rng):
         s["format"] = rng.choice(FORMATS)
     elif r < 0.4:
         s["enum"] = ["a" * n for n in sorted({rng.randint(lo, hi) for _ in range(2)})]
-    if rng.random() < 0.1:
-        s[rng.choice(["example", "default"])] = "a" * rng.randint(lo, hi)
+    if rng.random() < 0.1 and not any(k in s for k in ("pattern", "format", "enum")):
+        s[rng.choice(["example", "default"])] = "a" * rng.randint(lo, hi)   # a value the schema accepts
     return s
 
 
